@@ -101,6 +101,10 @@ func (s *scheduler) yield() {
 }
 
 func (e *Engine) goStmt(fr *frame, instr *ssa.Go, fn V, args []V) {
+	if e.rec != nil {
+		e.recGo(fr, instr, fn, args)
+		return
+	}
 	s := e.ensureSched()
 	g := &gor{id: len(s.all), wake: make(chan struct{})}
 	s.all = append(s.all, g)
@@ -194,6 +198,10 @@ func (e *Engine) chanQ(c *Chan) *chanState {
 }
 
 func (e *Engine) chanSend(fr *frame, ch V, v V) {
+	if e.rec != nil {
+		e.recSend(ch)
+		return
+	}
 	c, _ := ch.P.(*Chan)
 	s := e.ensureSched()
 	if c == nil {
@@ -225,6 +233,9 @@ func (e *Engine) chanSend(fr *frame, ch V, v V) {
 }
 
 func (e *Engine) chanRecv(fr *frame, ch V, commaOk bool, elem types.Type) V {
+	if e.rec != nil {
+		return e.recRecv(ch, commaOk, elem)
+	}
 	c, _ := ch.P.(*Chan)
 	s := e.ensureSched()
 	ret := func(v V, ok bool) V {
@@ -299,6 +310,9 @@ type chanIter struct {
 }
 
 func (e *Engine) selectOp(fr *frame, instr *ssa.Select) V {
+	if e.rec != nil {
+		return e.recSelect(fr, instr)
+	}
 	// deterministic: first ready case in source order; default when none and non-blocking
 	s := e.ensureSched()
 	for attempt := 0; ; attempt++ {
